@@ -460,7 +460,7 @@ macro_rules! ckks_backend {
                     let canary = xbuf.as_ref().unwrap().unchanged_except(xsnap.as_ref().unwrap(), &[(0, decl)]);
                     let tj: Vec<Value> = takes.iter().map(|&(a, l, t)| json!([a as i64 - xbase as i64, l, t])).collect();
                     json!({"call": op, "decl": decl, "len": decl, "exact": true, "takes": tj, "canary": canary, "panic": match &r { Err(p) => p.chars().take(80).collect::<String>(), _ => String::new() }})
-                } else { Value::Null };
+                } else { json!({}) };
                 let status = match &r {
                     Ok(Ok(())) => "ok".to_string(),
                     Ok(Err(e)) => err_class(e),
